@@ -167,7 +167,10 @@ class Socket:
             # until the socket timeout expires; closing the file descriptor alone does not do that
             with suppress(OSError):
                 self.sock.shutdown(socket.SHUT_RDWR)
-            self.sock.close()
+            with suppress(OSError):
+                # closing may report a pending error of the connection (reset by peer, i/o error); we
+                # are done with the socket either way, and the caller must get to drop its handles
+                self.sock.close()
 
         self.logger.debug(
             f"closed socket connection to '{self.host}' on port '{self.port}' successfully"
